@@ -302,14 +302,32 @@ func (c *specCtx) lookupLocal(name string) *specBind {
 		}
 	}
 	if best < 0 {
-		// heap-allocated (captured) locals: registers holding refs
-		for v, val := range c.frame.Regs {
-			if al, ok := v.(interface{ Name() string }); ok {
-				_ = al
+		// heap-allocated locals (address taken or captured): registers holding their references
+		var bestAl *ssa.Alloc
+		for v := range c.frame.Regs {
+			if al, ok := v.(*ssa.Alloc); ok && al.Heap && al.Comment == name {
+				if bestAl == nil || al.Pos() > bestAl.Pos() {
+					bestAl = al
+				}
 			}
-			_ = val
 		}
-		return nil
+		if bestAl == nil {
+			return nil
+		}
+		T := bestAl.Type().(*types.Pointer).Elem()
+		pv := c.frame.Regs[bestAl]
+		if _, isLocal := pv.ann("").(*PtrX); isLocal {
+			px := pv.ann("").(*PtrX)
+			if px.Kind == PLocal {
+				cc := c.st.Cells[px.Cell]
+				if cc.Spill != nil {
+					return nil
+				}
+				return &specBind{cc.V, T}
+			}
+		}
+		v := c.loadPx(c.e.ptrOf(pv, T), T)
+		return &specBind{v, T}
 	}
 	cc := c.st.Cells[best]
 	if cc.Spill != nil {
@@ -344,6 +362,10 @@ func (c *specCtx) ident(name string) (Val, types.Type) {
 					if ld, ok := in.(*ssa.UnOp); ok {
 						if al, ok := ld.X.(*ssa.Alloc); ok && (al.Comment == "rangeindex" || al.Comment == "rangeint.iter") {
 							if id, ok := c.frame.Cells[al]; ok {
+								if al.Comment == "rangeint.iter" {
+									// range-over-int: the iteration variable counts completed iterations at the loop head
+									return scalar(c.st.Cells[id].V.T[0]), untypedInt
+								}
 								return scalar(tb.Add(c.st.Cells[id].V.T[0], tb.Int(1))), untypedInt
 							}
 						}
@@ -477,7 +499,7 @@ func (c *specCtx) isNil(v Val, t types.Type) *Term {
 		// a nil slice has no backing array and (by well-formedness) length 0
 		return tb.And(tb.Eq(v.slArr(), tb.Int(0)), tb.Eq(v.slLen(), tb.Int(0)))
 	case *types.Interface:
-		return tb.And(tb.Eq(v.ifTag(), tb.Int(0)), tb.Eq(v.ifVal(), tb.Int(0)))
+		return tb.Eq(v.ifTag(), tb.Int(0))
 	}
 	if px, ok := v.ann("").(*PtrX); ok {
 		_ = px
